@@ -899,6 +899,7 @@ AnyP::Uri::addRelativePath(const char *relUrl)
         path_.chop(0, lastSlashPos+1);
     }
     path_.append(relUrl, relUrlLength);
+    touch(); // path_ changed: drop the memoized absolute()/absolutePath() forms
 }
 
 int
